@@ -20,6 +20,8 @@ BREAKS = {
     "rename-not-tracked": "os.rename / os.replace are not wrapped",
     "no-permission-check": "destructive operations on non-isolated paths are let through",
     "cleanup-skips-dirs": "the exit cleanup only removes files",
+    "prefix-guard": "'below something created' decided by a bare string prefix: out.txt / out_dir become deletable once 'out' was created",
+    "prefix-cleanup": "the exit cleanup also removes every path whose name merely starts with a created path (app.log.1 for app.log)",
 }
 
 
